@@ -71,3 +71,115 @@ func LayersCoq(ls []Layer) string {
 	}
 	return List(items)
 }
+
+// ---------- long keys: byte strings around a common stem (C07/Check.v: rl, hbs, lys, h1s) ----------
+
+// minStem: shorter stems are not worth the notation (and "U" needs three bytes).
+const minStem = 8
+
+// Stem is a long byte string given run-length encoded: Runs[i] = {byte, repeat count}.
+// The zero value (no runs) means "no stem": every renderer falls back to plain hex.
+type Stem struct {
+	Runs [][2]int
+}
+
+// Bytes expands the runs.
+func (s Stem) Bytes() []byte {
+	var b []byte
+	for _, r := range s.Runs {
+		for i := 0; i < r[1]; i++ {
+			b = append(b, byte(r[0]))
+		}
+	}
+	return b
+}
+
+// Coq renders the stem as (rl [(97%N, 150%N); ...]).
+func (s Stem) Coq() string {
+	items := []string{}
+	for _, r := range s.Runs {
+		items = append(items, Pair(N(uint64(r[0])), N(uint64(r[1]))))
+	}
+	return "(rl " + List(items) + ")"
+}
+
+// HexStem writes b in hex, with every occurrence of stem replaced by "S", every remaining
+// occurrence of stem-without-its-last-byte by "T" and of stem-without-its-last-two-bytes by "U"
+// (the notation read by hbs in C07/Check.v).
+func HexStem(b, stem []byte) string {
+	if len(stem) < minStem {
+		return HexS(b)
+	}
+	t := stem[:len(stem)-1]
+	u := stem[:len(stem)-2]
+	var sb strings.Builder
+	for i := 0; i < len(b); {
+		switch {
+		case bytes.HasPrefix(b[i:], stem):
+			sb.WriteByte('S')
+			i += len(stem)
+		case bytes.HasPrefix(b[i:], t):
+			sb.WriteByte('T')
+			i += len(t)
+		case bytes.HasPrefix(b[i:], u):
+			sb.WriteByte('U')
+			i += len(u)
+		default:
+			sb.WriteString(HexS(b[i : i+1]))
+			i++
+		}
+	}
+	return sb.String()
+}
+
+// HBStem is HB in the stem notation; the Coq variable s must be bound to the stem.
+func HBStem(items [][]byte, stem []byte) string {
+	if len(stem) < minStem {
+		return HB(items)
+	}
+	var sb strings.Builder
+	sb.WriteString(`(hbs s "`)
+	for _, b := range items {
+		sb.WriteString(HexStem(b, stem))
+		sb.WriteByte(',')
+	}
+	sb.WriteString(`")`)
+	return sb.String()
+}
+
+// H1Stem renders one byte string.
+func H1Stem(b, stem []byte) string {
+	if len(stem) < minStem {
+		return Hx(b)
+	}
+	return `(h1s s "` + HexStem(b, stem) + `,")`
+}
+
+// LayersCoqStem is LayersCoq in the stem notation.
+func LayersCoqStem(ls []Layer, stem []byte) string {
+	if len(stem) < minStem {
+		return LayersCoq(ls)
+	}
+	items := []string{}
+	for _, l := range ls {
+		var sb strings.Builder
+		sb.WriteString(`(lys s "`)
+		for _, k := range l.SortedKeys() {
+			sb.WriteString(HexStem(k, stem))
+			sb.WriteByte(',')
+			sb.WriteString(HexStem(l[string(k)], stem))
+			sb.WriteByte(',')
+		}
+		sb.WriteString(`")`)
+		items = append(items, sb.String())
+	}
+	return List(items)
+}
+
+// WithStem binds the Coq variable s around a case term written in the stem notation.
+func WithStem(st Stem, stem []byte, term string) string {
+	if len(stem) < minStem {
+		return term
+	}
+	return "(let s := " + st.Coq() + " in " + term + ")"
+}
